@@ -56,3 +56,14 @@ Proof.
   specialize (Hl 0 ltac:(lia)). rewrite lane0_b2z in Hl. rewrite <- Hl.
   rewrite map_map. apply map_ext. intros z. apply land_1_bit0.
 Qed.
+
+(* ---------- parsed programs accepted by the streaming comparison (the library's predefined architectures) *)
+From TLX Require Import Model.GenStream Proofs.GenStreamFacts.
+
+Theorem emitted_counts : forall (W k : nat) p m rows,
+  gen_net_matchesN p m = true ->
+  (1 < W)%nat -> wf_spatial_model m = true -> Z.of_nat (gsize (net_out m) k) < 2 ^ 31 ->
+  Forall (fun r => length r = net_in m) rows ->
+  forward_with_groupsum W (net_in m) (net_out m) k (execZ (Z.of_nat W) (to_prog p)) rows
+  = Some (map (per_row (net_out m) k (eval_model m)) rows).
+Proof. intros W k p m rows Hm. rewrite (matches_sound p m Hm). apply net_counts. Qed.
